@@ -1,7 +1,7 @@
 SPECIFICATION MCSpec
 CONSTANT L = 5
 CONSTANT Kind = "LO"
-CONSTANT LOBound = "asis"
+CONSTANT LOBound = "repaired"
 VIEW View
 INVARIANT Ok
 INVARIANT Inv
